@@ -237,6 +237,32 @@ def json_view_check(ctx, prog, rundir):
 
 # ---- programs (several files) -----------------------------------------------------------------------
 
+def break_typedef_cycles(m):
+    """ParseFrugal rejects typedefs defined in terms of themselves (repo fix 9b849ec); the model generator lets a
+    typedef name any type of its file, so two typedefs can name each other: cut such cycles (same marking
+    algorithm as validateTypedefs) by making the unresolved typedefs aliases of i32."""
+    tds = [d for k, d in m["decls"] if k == "typedef"]
+    names = {d["name"] for d in tds}
+
+    def refs(t, acc):
+        if t is None:
+            return acc
+        acc.add(t["name"])
+        refs(t["key"], acc)
+        refs(t["val"], acc)
+        return acc
+    resolved, progress = set(), True
+    while progress:
+        progress = False
+        for d in tds:
+            if d["name"] not in resolved and not ((refs(d["type"], set()) & names) - resolved):
+                resolved.add(d["name"])
+                progress = True
+    for d in tds:
+        if d["name"] not in resolved:
+            d["type"] = {"name": b"i32", "key": None, "val": None, "anns": []}
+
+
 def gen_program(ctx, rng, idx):
     nfiles = rng.choice([1, 1, 2, 2, 3, 4])
     names = []
@@ -259,6 +285,7 @@ def gen_program(ctx, rng, idx):
         # several scopes per file (ParseFrugal sorts them by name) and services (duplicate-name validation)
         extra = ["scope"] * rng.choice([0, 2, 3]) + ["service"] * rng.choice([0, 1, 2])
         m = gen.model(includes=incs, extra_kinds=extra)
+        break_typedef_cycles(m)
         models[names[i]] = m
         envs[names[i]] = m
     files = {n: G.Renderer(rng).render(models[n]) for n in names}
@@ -497,6 +524,7 @@ def run(ctx, br):
         for i in range(n_hazard_each):
             gen = G.Gen(rng)
             m = G.hazard_model(gen, hz)
+            break_typedef_cycles(m)
             name = ("hz%d.frugal" % i).encode()
             progs.append({"files": {name: G.Renderer(rng, plain=True).render(m)}, "root": name, "models": {name: m},
                           "hazard": hz})
@@ -563,7 +591,7 @@ def run(ctx, br):
         rep["broken"] = "correspondence JParser.judge (Model/Parser.v disagrees with the real parser on this text)"
         ctx.violation("C10 correspondence: model and implementation disagree", rep)
 
-    frag = run_fragment(ctx, rng, 60 if quick else 900)
+    frag = run_fragment(ctx, rng, 60 if quick else 600)
 
     feats = {}
     for c in cases:
